@@ -3,6 +3,7 @@
 -/
 import SchedVerif.Model.Conc.Pool
 import SchedVerif.Props.C14
+import SchedVerif.Lemmas.PoolSeq
 namespace SV
 open SV.Pool
 
@@ -137,6 +138,26 @@ theorem C16.all_done_before_return (batch sched : List Nat)
   have := (C16.each_once batch sched).1
   simpa [Pool.all, hq, hr] using this
 
+/-- **identical to sequential execution**: for every worker count and every interleaving of the
+    workers (any schedule after which the queue is empty and nobody is running), applying the
+    callbacks' effects on the scheduler in the order in which the workers finished them yields exactly
+    the state reached by running the batch sequentially in queue order — attempts, failure counts,
+    log count, registry; the rescheduling loop that follows is sequential in both cases, hence due
+    times and the job set afterwards agree too (callbacks that do not touch the scheduler) -/
+theorem C16.same_as_sequential (s : State) (clock : Int) (raises : List Nat) (batch sched : List Nat)
+    (hq : (Pool.run (Pool.init batch) sched).queue = []) (hr : (Pool.run (Pool.init batch) sched).running = []) :
+    ((Pool.run (Pool.init batch) sched).done.foldl (SV.runOne clock raises []) (s, [])).1 =
+      (batch.foldl (SV.runOne clock raises []) (s, [])).1 := by
+  rw [runOne_fold_state, runOne_fold_state]
+  exact runState_perm raises _ _ (C16.all_done_before_return batch sched hq hr) s
+
+/-- … and therefore so does the whole call: the post-run loop starts from the same state -/
+theorem C16.same_after_rescheduling (s : State) (clock : Int) (ref : DT) (raises : List Nat) (batch sched : List Nat)
+    (hq : (Pool.run (Pool.init batch) sched).queue = []) (hr : (Pool.run (Pool.init batch) sched).running = []) :
+    batch.foldl (SV.postOne ref) ((Pool.run (Pool.init batch) sched).done.foldl (SV.runOne clock raises []) (s, [])).1 =
+      batch.foldl (SV.postOne ref) (batch.foldl (SV.runOne clock raises []) (s, [])).1 := by
+  rw [C16.same_as_sequential s clock raises batch sched hq hr]
+
 /-- **at most `m` callbacks at the same time**: only the `m` workers of the pool ever run jobs -/
 theorem C16.at_most_m (s : PState) (h : OneEach s) (m : Nat) (hw : ∀ p ∈ s.running, p.1 < m) :
     s.running.length ≤ m := by
@@ -229,5 +250,10 @@ theorem C16.no_self_overlap (s : L2.Sys) (hm : L2.Mutex s) (i j : Nat) (ti tj : 
 
 /-! non-vacuity: 3 jobs, 2 workers, an interleaving -/
 example : (Pool.run (Pool.init [7, 8, 9]) [0, 1, 1, 0, 1, 0, 1, 0]).done = [8, 7, 9] := by decide
+
+/-! non-vacuity of `same_as_sequential`: two workers that finish in the reverse of the queue order -/
+example : (Pool.run (Pool.init [0, 1]) [0, 1, 1, 0, 0, 1]).done = [1, 0] ∧
+    (Pool.run (Pool.init [0, 1]) [0, 1, 1, 0, 0, 1]).queue = [] ∧
+    (Pool.run (Pool.init [0, 1]) [0, 1, 1, 0, 0, 1]).running = [] := by decide
 
 end SV
